@@ -66,6 +66,26 @@ func C01(r *report.Report, tier string) {
 	al := crashAlphabet()
 	r.Rule = fmt.Sprintf("every history of <=%d operations over a %d-symbol crash alphabet (all mutating RPCs, three WRITE stability levels, multi-block and unaligned writes, truncation, renames over existing targets, removal of a 600-block sparse file freed in the background), run on the real server on a recording disk under two background policies, and for the single-operation histories (thorough: also a fifth of the two-operation ones) under every schedule with one deviation in when the journal's daemons run; every cut of the write/barrier trace x every loss choice of un-barriered writes (full product up to %d per epoch, <=2-deviation rule above); each distinct image: independent fsck of the logical disk, recovery by the real MakeNfs under two schedules, full dump must equal the reference state after a prefix that contains every stably acknowledged operation, then allocator/cache audit, six more operations, dump and fsck again. distinct_nontrivial = distinct crash images (canonical key: home blocks + live log) of all histories", depth, len(al), cap)
 	var jobs []crashArg
+	// (the special histories first: under a time budget the jobs at the end are the ones skipped)
+	// histories on a freshly formatted disk whose format has not been installed yet
+	for _, h := range [][]fsx.Op{
+		{{K: "CREATE", H: "root", N: "a"}},
+		{{K: "MKDIR", H: "root", N: "e"}, {K: "CREATE", H: "root/e", N: "x"}},
+		{{K: "CREATE", H: "root", N: "a"}, {K: "WRITE", H: "root/a", Off: 0, Cnt: 5000, Pat: 0x45, Stable: 2}},
+		{{K: "SYMLINK", H: "root", N: "s", Target: "t"}, {K: "RENAME", H: "root", N: "s", H2: "root", N2: "t"}},
+	} {
+		for _, eager := range []bool{false, true} {
+			jobs = append(jobs, crashArg{Prop: "C01", DiskSize: 3000, Ops: h, Cap: cap, Eager: eager, Fresh: true})
+		}
+	}
+	// a 530-block file freed by several background shrinker transactions (images cut between them)
+	maxImg := 120
+	if tier == "thorough" {
+		maxImg = 0
+	}
+	for _, h := range [][]fsx.Op{{{K: "REMOVE", H: "root", N: "big"}}, {{K: "SETATTR", H: "root/big", Size: 3 * 4096}, {K: "CREATE", H: "root", N: "n"}}} {
+		jobs = append(jobs, crashArg{Prop: "C01", DiskSize: 3000, Setup: big530Setup, Ops: h, Cap: 64, MaxImages: maxImg, Probe: &fsx.Probe{Full: 4 << 20}})
+	}
 	for _, h := range crashHistories(al, depth) {
 		for _, eager := range []bool{false, true} {
 			jobs = append(jobs, crashArg{Prop: "C01", DiskSize: 3000, Setup: crashSetup, Ops: h, Cap: cap, Eager: eager, Probe: crashProbe, Nested: tier == "thorough" || len(h) == 1})
@@ -85,25 +105,6 @@ func C01(r *report.Report, tier string) {
 			// descending map iteration: the other order of blocks inside one log append and of lock releases
 			jobs = append(jobs, crashArg{Prop: "C01", DiskSize: 3000, Setup: crashSetup, Ops: h, Cap: cap, MapDesc: true, Probe: crashProbe})
 		}
-	}
-	// histories on a freshly formatted disk whose format has not been installed yet
-	for _, h := range [][]fsx.Op{
-		{{K: "CREATE", H: "root", N: "a"}},
-		{{K: "MKDIR", H: "root", N: "e"}, {K: "CREATE", H: "root/e", N: "x"}},
-		{{K: "CREATE", H: "root", N: "a"}, {K: "WRITE", H: "root/a", Off: 0, Cnt: 5000, Pat: 0x45, Stable: 2}},
-		{{K: "SYMLINK", H: "root", N: "s", Target: "t"}, {K: "RENAME", H: "root", N: "s", H2: "root", N2: "t"}},
-	} {
-		for _, eager := range []bool{false, true} {
-			jobs = append(jobs, crashArg{Prop: "C01", DiskSize: 3000, Ops: h, Cap: cap, Eager: eager, Fresh: true})
-		}
-	}
-	// a 530-block file freed by several background shrinker transactions (images cut between them)
-	maxImg := 120
-	if tier == "thorough" {
-		maxImg = 0
-	}
-	for _, h := range [][]fsx.Op{{{K: "REMOVE", H: "root", N: "big"}}, {{K: "SETATTR", H: "root/big", Size: 3 * 4096}, {K: "CREATE", H: "root", N: "n"}}} {
-		jobs = append(jobs, crashArg{Prop: "C01", DiskSize: 3000, Setup: big530Setup, Ops: h, Cap: 64, MaxImages: maxImg, Probe: &fsx.Probe{Full: 4 << 20}})
 	}
 	runCrashJobs(r, jobs, map[string]bool{"C01": true})
 	r.Add("states", int64(r.NDistinct()))
